@@ -80,6 +80,7 @@ structure Params where
   ax : Val
   ay : Val
   sp : Int
+  mo : Nat
   nbunch : List PyId
   ebunch : List PyId
   nlookup : List PyId
@@ -112,7 +113,7 @@ def params? (j : Json) : Option Params := do
          attr := ← getStr? j "attr", missing := ← (getField? j "missing").bind valOfJson?,
          x := ← getInt? j "x", y := ← getInt? j "y", qx := ← rat? j "qx", qy := ← rat? j "qy",
          ax := ← (getField? j "ax").bind valOfJson?, ay := ← (getField? j "ay").bind valOfJson?,
-         sp := ← getInt? j "sp", nbunch := ← getIds? j "nbunch", ebunch := ← getIds? j "ebunch",
+         sp := ← getInt? j "sp", mo := ← getNat? j "mo", nbunch := ← getIds? j "nbunch", ebunch := ← getIds? j "ebunch",
          nlookup := ← getIds? j "nlookup", elookup := ← getIds? j "elookup" }
 
 def isPermOf (o v : List PyId) : Bool := o.length = v.length && v.all (· ∈ o) && o.all (· ∈ v)
@@ -145,6 +146,7 @@ def multiJson (view : List PyId) (cols : List (String × List (PyId × SV))) : J
     ("asdict_t", Json.arr ((multiAsdictT view cols).map (fun c => Json.arr #[Json.str c.1, pairsJson svJson c.2])).toArray),
     ("aslist", listJson (listJson svJson) (multiAslist view cols)),
     ("aslist_t", listJson (listJson svJson) (multiAslistT view cols)),
+    ("asnumpy", listJson (listJson svJson) (multiAsnumpy view cols)),
     ("aspandas", Json.mkObj [("index", idsToJson p.1), ("columns", listJson Json.str p.2.1),
         ("rows", listJson (listJson svJson) p.2.2)])]
 
@@ -153,6 +155,7 @@ def nodeStats (s : HG) (p : Params) (view : List PyId) : List (String × StatF) 
     ("degree_o", .ok (fun n => .int (degree s p.k n))),
     ("and", .ok (fun n => .rat (avgNbrDeg s n))),
     ("attr", .ok (fun n => .val (attrGet s .node p.attr p.missing n))),
+    ("attr_d", .ok (fun n => .val (attrGet s .node p.attr (.sc .none) n))),
     ("attrs", .ok (fun n => .attrs (s.nattr n))) ] ++
   (match p.w with
    | none => []
@@ -164,12 +167,43 @@ def edgeStats (s : HG) (p : Params) : List (String × StatF) :=
     ("size_d", .ok (fun e => .int (size s p.d e))),
     ("order_d", .ok (fun e => .int (order s p.d e))),
     ("attr", .ok (fun e => .val (attrGet s .edge p.attr p.missing e))),
+    ("attr_d", .ok (fun e => .val (attrGet s .edge p.attr (.sc .none) e))),
     ("attrs", .ok (fun e => .attrs (s.eattr e))) ]
 
 def okCols (order : List PyId) (names : List String) (stats : List (String × StatF)) : List (String × List (PyId × SV)) :=
   names.filterMap (fun nm => match stats.find? (·.1 = nm) with
     | some (_, .ok f) => some (nm, evalStat f order)
     | _ => none)
+
+/-- the value of a numeric stat as a rational -/
+def ratVal : SV → Rat
+  | .int i => (i : Rat)
+  | .rat q => q
+  | _ => 0
+
+def optIdJson : Option PyId → Json
+  | none => Json.null
+  | some i => idToJson i
+def optRatJson : Option Rat → Json
+  | none => Json.null
+  | some q => ratJson q
+
+/-- every aggregate of one numeric stat over a view (`IDStat.max()` … `unique()`) -/
+def aggJson (view : List PyId) (mo : Nat) (f : PyId → SV) : Json :=
+  let g : PyId → Rat := fun i => ratVal (f i)
+  let vals := view.map g
+  Json.mkObj [
+    ("max", optRatJson (aggMax vals)), ("min", optRatJson (aggMin vals)), ("sum", ratJson (aggSum vals)),
+    ("mean", ratJson (aggMean vals)), ("median", ratJson (aggMedian vals)), ("var", ratJson (aggVar vals)),
+    ("moment", ratJson (aggMoment mo vals)), ("cmoment", ratJson (aggCMoment mo vals)),
+    ("argmax", optIdJson (argmax view g)), ("argmin", optIdJson (argmin view g)),
+    ("argsort", idsToJson (argsort view g false)), ("argsort_r", idsToJson (argsort view g true)),
+    ("unique", listJson ratJson (aggUnique vals)), ("counts", listJson (fun n : Nat => intJson (n : Int)) (aggCounts vals)) ]
+
+def aggsJson (view : List PyId) (mo : Nat) (names : List String) (stats : List (String × StatF)) : Json :=
+  Json.mkObj (names.filterMap (fun nm => match stats.find? (·.1 = nm) with
+    | some (_, .ok f) => some (nm, aggJson view mo f)
+    | _ => none))
 
 def observe (s : HG) (p : Params) : Json :=
   let nodes := keys s .node
@@ -201,6 +235,10 @@ def observe (s : HG) (p : Params) : Json :=
       | some v => Json.mkObj (est.map (fun st => (st.1, statFJson v v.reverse st.2)))),
     ("nmulti", multiJson nodes (okCols no ["degree", "degree_o", "attr"] nst)),
     ("emulti", multiJson edges (okCols eo ["size", "order_d", "attr"] est)),
+    ("nmulti2", multiJson nodes (okCols no ["degree", "degree_o", "and"] nst)),
+    ("emulti2", multiJson edges (okCols eo ["size", "order_d", "order"] est)),
+    ("nagg", aggsJson nodes p.mo ["degree", "degree_o", "and"] nst),
+    ("eagg", aggsJson edges p.mo ["size", "order_d"] est),
     ("nfilter", Json.mkObj [("degree", filterIntJson s .node nodes deg p.x p.y),
                             ("degree_o", filterIntJson s .node nodes dego p.x p.y),
                             ("and", filterRatJson s .node nodes and p.qx p.qy)]),
@@ -266,11 +304,13 @@ def diNodeStats (s : DiSt) (p : Params) (view : List PyId) : List (String × Sta
     ("out_degree", .ok (fun n => .int (s.outDegree none n))),
     ("out_degree_o", .ok (fun n => .int (s.outDegree p.k n))),
     ("attr", .ok (fun n => .val (attrGet s.tot .node p.attr p.missing n))),
+    ("attr_d", .ok (fun n => .val (attrGet s.tot .node p.attr (.sc .none) n))),
     ("attrs", .ok (fun n => .attrs (s.nattr n))) ] ++
   (match p.w with
    | none => []
-   | some w => [("degree_w", degreeWF s.tot none w view), ("in_degree_w", degreeWF s.inStat none w view),
-                ("out_degree_ow", degreeWF s.outStat p.k w view)])
+   | some w => [("degree_w", degreeWF s.tot none w view), ("degree_ow", degreeWF s.tot p.k w view),
+                ("in_degree_w", degreeWF s.inStat none w view), ("in_degree_ow", degreeWF s.inStat p.k w view),
+                ("out_degree_w", degreeWF s.outStat none w view), ("out_degree_ow", degreeWF s.outStat p.k w view)])
 
 def diEdgeStats (s : DiSt) (p : Params) : List (String × StatF) :=
   [ ("size", .ok (fun e => .int (s.size none e))),
@@ -286,6 +326,7 @@ def diEdgeStats (s : DiSt) (p : Params) : List (String × StatF) :=
     ("tail_order_d", .ok (fun e => .int (s.tailOrder p.d e))),
     ("head_order_d", .ok (fun e => .int (s.headOrder p.d e))),
     ("attr", .ok (fun e => .val (attrGet s.tot .edge p.attr p.missing e))),
+    ("attr_d", .ok (fun e => .val (attrGet s.tot .edge p.attr (.sc .none) e))),
     ("attrs", .ok (fun e => .attrs (s.eattr e))) ]
 
 /-- the directed observation: views, filters and set-theoretic queries are those of the member-union
@@ -324,6 +365,10 @@ def dobserve (d : DiSt) (p : Params) : Json :=
       | some v => Json.mkObj (est.map (fun st => (st.1, statFJson v v.reverse st.2)))),
     ("nmulti", multiJson nodes (okCols no ["degree", "degree_o", "attr"] nst)),
     ("emulti", multiJson edges (okCols eo ["size", "order_d", "attr"] est)),
+    ("nmulti2", multiJson nodes (okCols no ["in_degree", "out_degree_o", "degree"] nst)),
+    ("emulti2", multiJson edges (okCols eo ["tail_size", "head_order_d", "size"] est)),
+    ("nagg", aggsJson nodes p.mo ["degree", "in_degree", "out_degree_o"] nst),
+    ("eagg", aggsJson edges p.mo ["size", "tail_size", "head_order_d"] est),
     ("nfilter", Json.mkObj [("degree", filterIntJson s .node nodes deg p.x p.y),
                             ("degree_o", filterIntJson s .node nodes dego p.x p.y),
                             ("in_degree", filterIntJson s .node nodes indeg p.x p.y),
@@ -354,6 +399,7 @@ def dobserve (d : DiSt) (p : Params) : Json :=
     ("ndups", idsToJson (duplicates s .node)),
     ("edups", idsToJson (duplicates s .edge)),
     ("isolates", idsToJson (isolates s false)),
+    ("singletons", idsToJson (singletons s)),
     ("empty", idsToJson (empty s)) ]
 
 /-- install a directed state from its tables -/
